@@ -98,6 +98,14 @@ def s(conc_sampler, tree, tree_dist):
 
     rule_U3(ctx)
     ctx.analysed(f, init, g, nd, m)
+    # "the new value is used by every subsequent density evaluation": results memoised under the old value must not
+    # be served after the update, i.e. every cache on the proposal path is keyed on the concentration by value
+    # (same rule object as C14.K1)
+    from ..formula import imported
+    from . import C14
+
+    ctx._own_rules = set(ctx.rule_min)
+    imported(ctx, C14.rule_K1)
 
 
 def rule_U3(ctx):
